@@ -74,7 +74,7 @@ Variable cancel_at : Z.          (* 0 = never; k = the context of this Analyze c
 (* atomic.LoadInt32(ai.cancel) != 0 *)
 Definition cancelled (s : sstate) : bool := (0 <? cancel_at) && (cancel_at <=? evals s).
 
-Definition mvp := move_prealloc (hash_sq basis) false.
+Definition mvp := move_prealloc (hash_sq basis) true.      (* MovePreallocated with the origin bounds check of ef08d03 *)
 Definition phash (p : position) : N := hash_of p.
 Definition is_over (p : position) : bool := match game_over p with Some (o, _) => o | None => false end.
 Definition pass_move (p : position) : position :=
